@@ -117,6 +117,12 @@ CLAIMED = {
         note=TB + "Per-verb preservation of the invariant needs the editor-core model (partial).",
         technique="Coq proof (epilogue clamp lemmas, line-count agreement) + invariant evaluation on dumped states",
         design="§9 C09"),
+    "C16": dict(
+        text="Theorems (all buffers, ranges, patterns of the fragment): the reference semantics of :[range]d, :[range]y + :[k]pu, :[range]s/pat/rep/[g], :g[!]/pat/d and :g[!]/pat/s changes exactly the addressed lines - the buffer is before ++ within ++ after and only within is removed, copied, rewritten line by line or filtered; the register holds the removed/yanked lines; a backwards range is the same range; a range past the last line or an offset before line 0 addresses nothing and the command is the identity; the first match of the matcher is the leftmost one and a line without a match is unchanged; text and line list carry the same information with and without a final terminator. "
+             "Correspondence: chains of 1..4 ex commands (numbers incl. 0 and past the end, . $ % +n -n, reversed ranges; literals, ., classes, \\d, * + ?, ^ $; multi-byte; 0..12 lines; last line with and without terminator) are run through the real CLI and through the reference evaluated in coqc and compared line by line; the reference itself is compared with Vim 9 (vim -es) on every case (0 disagreements), and a corpus of every repaired deviation runs first.",
+        note=TB + "The reference is Vim's address rules (validated against /usr/bin/vim each run), not sed's: out-of-range ranges address nothing, backwards ranges are swapped. Where the cursor is after an ex command, the regex crate beyond the modelled fragment, and :normal! keys other than x dd A.. I.. are outside the model (partial).",
+        technique="Coq proof (list-surgery lemmas over the line list, leftmost-match lemma for the matcher) + CLI-vs-reference correspondence, reference cross-checked against Vim",
+        design="§9 C16"),
     "C10": dict(
         text="Theorems (all inputs of the modelled components): Opts::parse/handle_global_arg end with an option set or the usage error for every argument vector, scope stack and file-system answer, never a panic (structural recursion: it ends); every key the key reader returns costs at least one byte, so the key loop ends within one iteration per byte and the model's fuel is never what stops it; output formatting ends with text or the error exit; "
              "the five drivers and main's dispatch add no panic to units that end gracefully; undo/redo have no failing outcome. "
